@@ -315,6 +315,8 @@ type state struct {
 	buf     bytes.Buffer
 	escaped int64
 	exempt  int64
+	// multi-step URL sequences: state class in which the last hole was reached
+	urlClass map[string]int64
 }
 
 // check renders s in every context and judges the decodings. class labels the value for the
@@ -375,10 +377,17 @@ type caseData struct {
 	Lead  []byte `json:"lead,omitempty"`  // succ: the escape-relevant string whose successors are enumerated
 	First int    `json:"first,omitempty"` // tuples: index of the first symbol
 	Embed bool   `json:"embed,omitempty"` // succ: also a+lead+succ+z
+	From  int    `json:"from,omitempty"`  // urlseq: template index range
+	To    int    `json:"to,omitempty"`
+	Full  bool   `json:"full,omitempty"` // urlseq: all first/middle values for three-hole templates
 	Seed  int64  `json:"seed,omitempty"`
 	N     int    `json:"n,omitempty"`
 	Ctx   string `json:"ctx,omitempty"` // one: context name ("" = all contexts)
-	Val   []byte `json:"val,omitempty"` // one: the value
+	Val   []byte `json:"val,omitempty"` // one, urlone: the value
+	// urlone: one URL sequence (self-contained template description, first and middle value)
+	URL *urlTemplate `json:"url,omitempty"`
+	B1  []byte       `json:"b1,omitempty"`
+	B2  []byte       `json:"b2,omitempty"`
 }
 
 func (prop) Work(c core.Case) core.Result {
@@ -389,7 +398,7 @@ func (prop) Work(c core.Case) core.Result {
 		// the fixed templates must build: a failure is a harness/environment problem or a build defect
 		return core.Result{Status: core.Inconclusive, Detail: buildErr.Error()}
 	}
-	st := &state{sigs: map[string]struct{}{}}
+	st := &state{sigs: map[string]struct{}{}, urlClass: map[string]int64{}}
 	switch cd.Kind {
 	case "one":
 		st.only = cd.Ctx
@@ -410,10 +419,26 @@ func (prop) Work(c core.Case) core.Result {
 		cl := "tuple:" + printable(a)
 		for _, b := range tupleAlphabet {
 			st.check(a+b, cl)
-			for _, c3 := range tupleAlphabet {
+			third := tupleAlphabet
+			if cd.N > 0 && cd.N < len(third) {
+				third = third[:cd.N] // quick: the third symbol ranges over the first N symbols
+			}
+			for _, c3 := range third {
 				st.check(a+b+c3, cl)
 			}
 		}
+	case "urlseq":
+		st.checkURLSeq(cd.From, cd.To, cd.Seed, cd.N, cd.Full)
+	case "urlone":
+		if cd.URL == nil {
+			return core.Result{Status: core.Inconclusive, Detail: "urlone case without template"}
+		}
+		tmpl, err := st.urlTemplate(*cd.URL)
+		if err != nil {
+			return core.Result{Status: core.Inconclusive, Detail: err.Error()}
+		}
+		var buf bytes.Buffer
+		st.runURL(tmpl, *cd.URL, string(cd.B1), string(cd.B2), string(cd.Val), &buf)
 	case "random":
 		r := core.Rand(cd.Seed, "c07-random")
 		for i := 0; i < cd.N; i++ {
@@ -428,6 +453,9 @@ func (prop) Work(c core.Case) core.Result {
 		"renders_with_escaping": st.escaped,
 		"exemptions_applied":    st.exempt,
 	}}
+	for k, n := range st.urlClass {
+		res.Counts["url_sequence_last_hole_in_"+k] = n
+	}
 	for s := range st.sigs {
 		res.Sigs = append(res.Sigs, s)
 	}
@@ -579,7 +607,8 @@ func (prop) Drive(d *core.Driver) error {
 	}
 	d.T.Rule = "each case renders a family of strings through one pre-built template per context (global s of type string) and decodes the slot with the context's standard decoder; " +
 		"families: (succ) every dictionary string (all non-alphanumeric ASCII, special non-ASCII code points, invalid UTF-8 sequences, look-alike escapes of every target language) alone, followed by and preceded by every ASCII byte, 64 seed-sampled non-ASCII runes and 4 invalid sequences (thorough: also embedded in a…z, and six more successor samples); " +
-		"(tuples) all pairs and triples over a 32-symbol escape-relevant alphabet; (random) random valid/invalid UTF-8 up to 64 bytes. " +
+		"(tuples) all pairs and triples over a 32-symbol escape-relevant alphabet (quick: third symbol from the first 20); (random) random valid/invalid UTF-8 up to 64 bytes; " +
+		"(urlseq) generated URL attribute templates with two or three holes (href/src/action/srcset, double/single/unquoted; first value with/without '?', ending in '?', '&' or neither, empty; literal texts starting with ? & &amp; = # / or plain; literal suffix none, &amp;z=1 or #f): the last hole is the value under test and is judged model-free according to whether a '?' or '#' precedes it in the decoded attribute. " +
 		"evaluations = (context, value) renders. distinct_nontrivial counts distinct (context, value family) pairs for which the escaper actually changed the value (raw slot differs from the value)"
 	d.T.Assumptions = append([]string{
 		"html.UnescapeString, x/net/html, encoding/json and net/url are correct; the JS, CSS and percent decoders of verif/oracle/decode follow ECMA-262 §12.9.4, CSS Syntax 3 §4.3.5/§4.3.7 and RFC 3986 §2.1 (own unit tests)",
@@ -595,13 +624,20 @@ func (prop) Drive(d *core.Driver) error {
 		cases = append(cases, core.NewCase(fmt.Sprintf("succ-%03d-%s", i, printable(l)), caseData{Kind: "succ", Lead: []byte(l), Seed: d.Seed*7919 + int64(i), Embed: d.Thorough()}))
 	}
 	for i := range tupleAlphabet {
-		cases = append(cases, core.NewCase(fmt.Sprintf("tuples-%02d", i), caseData{Kind: "tuples", First: i}))
+		cases = append(cases, core.NewCase(fmt.Sprintf("tuples-%02d", i), caseData{Kind: "tuples", First: i, N: d.N(20, 0)}))
 	}
-	nr := d.N(20, 600)
+	nr := d.N(12, 600)
 	per := d.N(1000, 3000)
 	for i := 0; i < nr; i++ {
 		cases = append(cases, core.NewCase(fmt.Sprintf("random-%d", i), caseData{Kind: "random", Seed: d.Seed*1000003 + int64(i), N: per}))
 	}
+	// multi-step URL attribute sequences (urlseq.go)
+	const ustep = 20
+	for from := 0; from < len(urlTemplates); from += ustep {
+		cases = append(cases, core.NewCase(fmt.Sprintf("urlseq-%04d", from), caseData{Kind: "urlseq", From: from, To: from + ustep, Seed: d.Seed*31337 + int64(from), N: d.N(5, 40), Full: d.Thorough()}))
+	}
+	d.T.Set("url_sequence_templates", len(urlTemplates))
+	d.T.Sample(map[string]any{"case": "urlseq-0000", "meaning": "templates 0..19 of the URL sequence family, e.g. " + urlTemplates[1].source() + " with every first value (/s?q=x, /s?, /s?q=x&, /p, empty, ...), middle value and hostile query value; the slot after zq9= must decode (html.UnescapeString, net/url, RFC 3986) to the value"})
 	if d.Thorough() {
 		// a second, differently seeded successor sweep widens the non-ASCII successor sample
 		for k := 1; k <= 6; k++ {
